@@ -4,13 +4,15 @@ import AkVerif.Model.PPrint
 Driver of C11. One request per line, `<mode>` is `j` (JSON constants) or `p` (Python constants),
 `<value>` is a postfix program:
 
-  `s:<cps>` string   `n:<cps>` number (its `str()` text)   `T` `F` `Z` true/false/none
+  `s:<cps>` string   `i:<int>` int   `n:<cps>` float (its `str()` text)   `T` `F` `Z` true/false/none
   `l:<k>` list of the last k values   `d:<k>` dict of the last k (string, value) pairs
 
   pp|ps|pa <mode> <value>   text of the printed value (whole text, `str()`, text after an iteration) -> ok <cps>
+  pc|pw <mode> <value>      the same text, obtained with colours on and stripped / through PPWrap (diagnostic)
   ln|lc|lr|l2|li|lp|lz <mode> <value>  the lines of the line iteration, whatever the order in which the caller
                             collects and renders them (the model is a pure function)  -> ok <cps>|<cps>|…
-  gen <mode> <off> <value>  chunk list at an offset (`N` = marker)  -> ok <cps>|N|…   (diagnostic)
+  gen <mode> <off> <value>  chunk list at an offset: `N` = marker, `t:`/`k:`/`d:`/`w:` + text = a chunk made
+                            by cp.text / cp.name / cp.number / cp.keyword   -> ok t:<cps>|N|…   (diagnostic)
   rd <mode> <cps>           the reader on a text                   -> ok <value> | none (diagnostic)
 -/
 open Ak Ak.Proto PPrint
@@ -27,6 +29,7 @@ def stepTok (st : List J) (tok : String) : Option (List J) :=
   match tok.splitOn ":" with
   | ["s", cps] => (parseCps cps).map fun s => J.str s :: st
   | ["n", cps] => (parseCps cps).map fun s => J.num s :: st
+  | ["i", n] => (parseInt n).map fun k => J.int k :: st
   | ["T"] => some (J.kw .tt :: st)
   | ["F"] => some (J.kw .ff :: st)
   | ["Z"] => some (J.kw .nul :: st)
@@ -49,12 +52,14 @@ def constsOf (m : String) : Option Consts :=
 def showChunks (cs : List (Option Chunk)) : String :=
   "|".intercalate (cs.map fun
     | none => "N"
-    | some ch => showCps ch)
+    | some ch => (match ch.kind with
+        | .text => "t:" | .name => "k:" | .number => "d:" | .keyword => "w:") ++ showCps ch.text)
 
 mutual
 def showJ : J → List String
   | .str s => ["s:" ++ showCps s]
   | .num t => ["n:" ++ showCps t]
+  | .int n => ["i:" ++ toString n]
   | .kw .tt => ["T"]
   | .kw .ff => ["F"]
   | .kw .nul => ["Z"]
@@ -72,7 +77,8 @@ def handle (line : String) : String :=
   match splitWs line with
   | "gen" :: m :: off :: val =>
     match constsOf m, off.toNat?, parseValue val with
-    | some c, some o, some v => "ok " ++ showChunks (gen c limits v o)
+    | some c, some o, some v =>
+      if wfB v then "ok " ++ showChunks (gen c limits v o) else "out-of-domain"
     | _, _, _ => "bad-op"
   | ["rd", m, cps] =>
     match constsOf m, parseCps cps with
@@ -85,9 +91,10 @@ def handle (line : String) : String :=
     match constsOf m, parseValue val with
     | some c, some v =>
       -- the model is a pure function: every way of consuming the result sees the same text / lines
-      if op = "pp" || op = "ps" || op = "pa" then "ok " ++ showCps (text (gen c limits v 0))
+      if !wfB v then "out-of-domain"     -- the hypothesis `WF` of the theorems, checked on every request
+      else if op = "pp" || op = "ps" || op = "pa" || op = "pc" || op = "pw" then "ok " ++ showCps (text (gen c limits v 0))
       else if op = "ln" || op = "lc" || op = "lr" || op = "l2" || op = "li" || op = "lp" || op = "lz" then
-        "ok " ++ "|".intercalate ((groupLines (gen c limits v 0)).map fun l => showCps l.flatten)
+        "ok " ++ "|".intercalate ((groupLines (gen c limits v 0)).map fun l => showCps (lineText l))
       else "bad-op"
     | _, _ => "bad-op"
   | _ => "bad-op"
